@@ -1157,3 +1157,149 @@ Proof.
   - intros p k Hp. rewrite O3, O3'. symmetry. apply class_cards_reverse; assumption.
   - intros p k card Hp. apply (proj1 (EL p Hp)).
 Qed.
+
+(** *** the tracker does not see the reversal: it reads typing triples only *)
+From Shexer Require Import Proofs.EndToEnd2.
+
+Lemma track_plain_reverse tau m g : forall d,
+  track_plain tau m (reverse_nonliteral tau g) d = track_plain tau m g d.
+Proof.
+  induction g as [|t g IH]; intros d; [reflexivity|]. unfold reverse_nonliteral in *. cbn [flat_map].
+  unfold reverse_triple. destruct (str_eqb (tp t) tau) eqn:Et.
+  - cbn [app track_plain]. destruct (relevant tau m t); [|apply IH]. destruct (annotate d t); [apply IH | reflexivity].
+  - cbn [track_plain]. rewrite (relevant_tp tau m t Et).
+    destruct (to t) as [o|l dt]; [|apply IH]. cbn [app track_plain].
+    rewrite (relevant_tp tau m (T o (tp t) (ON (ts t))) Et). apply IH.
+Qed.
+
+Lemma track_cap_reverse tau m cap nt g : forall d st,
+  track_cap tau m cap nt (reverse_nonliteral tau g) d st = track_cap tau m cap nt g d st.
+Proof.
+  induction g as [|t g IH]; intros d st; [reflexivity|]. unfold reverse_nonliteral in *. cbn [flat_map].
+  unfold reverse_triple. destruct (str_eqb (tp t) tau) eqn:Et.
+  - cbn [app track_cap]. destruct (cap_allows tau cap st t) as [[|]|]; [|apply IH | reflexivity].
+    destruct (relevant tau m t); [|apply IH]. destruct (to t) as [o|l dt]; [|reflexivity].
+    destruct nt as [n|]; [|apply IH].
+    match goal with |- context [if ?b then _ else _] => destruct b end; [reflexivity | apply IH].
+  - assert (Ec : forall t', tp t' = tp t -> cap_allows tau cap st t' = Some true).
+    { intros t' E. unfold cap_allows. rewrite E, Et. reflexivity. }
+    assert (Es : track_cap tau m cap nt (t :: g) d st = track_cap tau m cap nt g d st).
+    { cbn [track_cap]. rewrite (Ec t eq_refl), (relevant_tp tau m t Et). reflexivity. }
+    rewrite Es. destruct (to t) as [o|l dt]; [|apply IH]. cbn [app track_cap].
+    rewrite (Ec (T o (tp t) (ON (ts t))) eq_refl), (relevant_tp tau m (T o (tp t) (ON (ts t))) Et). apply IH.
+Qed.
+
+Theorem track_reverse tau m cap g : track tau m cap (reverse_nonliteral tau g) = track tau m cap g.
+Proof.
+  unfold track. destruct (cap <=? 0)%Z; [apply track_plain_reverse | apply track_cap_reverse].
+Qed.
+
+(** hence reading the instances from [g] and the features from the reversed
+    graph IS the plain run on the reversed graph *)
+Corollary run_shapes2_reverse fa c thr g :
+  run_shapes2 fa c thr g (reverse_nonliteral (r_tau c) g) = run_shapes fa c thr (reverse_nonliteral (r_tau c) g).
+Proof. unfold run_shapes2, run_shapes. rewrite track_reverse. reflexivity. Qed.
+
+(** *** A4 *)
+
+(** what a shape of the run with inverse paths on [g] and the shape of the
+    same class of the run without inverse paths on the reversed graph share:
+    label, class, instance count, and -- for the properties other than [tau]
+    -- the incoming constraints of the one are the outgoing constraints of
+    the other with the direction flag set, in the same order, with the same
+    cardinalities, figures and comments *)
+Definition inverse_is_reverse (tau : str) (sh_t sh_r : shape) : Prop :=
+  sh_name sh_t = sh_name sh_r /\ sh_class sh_t = sh_class sh_r /\ sh_n sh_t = sh_n sh_r /\
+  filter (fun s => s_inv s && not_tau tau (s_prop s)) (sh_stmts sh_t) =
+  map set_inv (filter (fun s => not_tau tau (s_prop s)) (sh_stmts sh_r)).
+
+Lemma Forall2_dicts {V W} (R : V -> W -> Prop) (d : dict V) (d' : dict W) :
+  NoDup (dkeys d) -> dkeys d' = dkeys d ->
+  (forall k v w, dget d k = Some v -> dget d' k = Some w -> R v w) ->
+  Forall2 (fun x y => fst x = fst y /\ R (snd x) (snd y)) d d'.
+Proof.
+  revert d'. induction d as [|[k v] d IH]; intros d' Hn Hk HR.
+  - destruct d'; [constructor | discriminate Hk].
+  - destruct d' as [|[k' w] d']; [discriminate Hk|]. cbn [dkeys map fst] in Hk. injection Hk as -> Hk.
+    inversion Hn as [|? ? Hx Hn']; subst. constructor.
+    + split; [reflexivity|]. apply (HR k v w); cbn [dget]; rewrite str_eqb_refl; reflexivity.
+    + apply IH; [exact Hn' | exact Hk|]. intros x v0 w0 Hv Hw.
+      assert (E : str_eqb x k = false).
+      { apply str_eqb_neq. intros ->. apply Hx. apply dmem_In. unfold dmem. rewrite Hv. reflexivity. }
+      apply (HR x v0 w0); cbn [dget]; rewrite E; assumption.
+Qed.
+
+Lemma class_inverse_is_reverse fa cfg thr C cls e e' sh_t sh_r :
+  order_at fa (cnt_of C cls) ->
+  dfilter (not_tau (x_tau cfg)) (c_inverse e) = dfilter (not_tau (x_tau cfg)) (c_direct e') ->
+  shex_class fa (with_inverse true cfg) thr C (cls, e) = inl sh_t ->
+  shex_class fa (with_inverse false cfg) thr C (cls, e') = inl sh_r ->
+  inverse_is_reverse (x_tau cfg) sh_t sh_r.
+Proof.
+  intros Hord Ed Ht Hr.
+  destruct (shex_class_unfold fa _ thr C _ sh_t Ht) as (_ & _ & _ & _ & _ & N1 & N2 & N3).
+  destruct (shex_class_unfold fa _ thr C _ sh_r Hr) as (_ & _ & _ & _ & _ & N1' & N2' & N3').
+  cbn [fst] in *. split; [rewrite N1, N1'; reflexivity|]. split; [congruence|]. split; [congruence|].
+  destruct (I2_inverse_part fa cfg thr C (cls, e) sh_t Hord Ht) as (sh1 & H1 & E1).
+  set (q := not_tau (x_tau cfg)).
+  destruct (shex_class_direct_dfilter fa (with_inverse false cfg) q thr C cls _ sh1 eq_refl Hord H1) as (sh1' & H1' & S1).
+  destruct (shex_class_direct_dfilter fa (with_inverse false cfg) q thr C cls e' sh_r eq_refl Hord Hr) as (sh2' & H2' & S2).
+  cbn [swap_entry fst snd c_direct c_inverse] in H1'.
+  rewrite <- (shex_class_strip fa (with_inverse false cfg) thr C
+                (cls, {| c_direct := dfilter q (c_direct e'); c_inverse := c_inverse e' |}) eq_refl) in H2'.
+  unfold strip_c in H2'. cbn [fst snd c_direct] in H2'. fold q in Ed. rewrite Ed in H1'.
+  assert (sh1' = sh2') by congruence. subst sh2'.
+  assert (ES : filter (qs q) (sh_stmts sh1) = filter (qs q) (sh_stmts sh_r)) by congruence.
+  change (fun s : stmt => q (s_prop s)) with (qs q). rewrite <- ES.
+  rewrite <- (filter_map_comm set_inv (qs q) (qs q) (sh_stmts sh1)) by (intros s; reflexivity).
+  rewrite <- E1. unfold is_inverse, qs.
+  clear. induction (sh_stmts sh_t) as [|s l IH]; [reflexivity|]. cbn [filter].
+  destruct (s_inv s); cbn [andb filter]; [destruct (q (s_prop s))|]; rewrite IH; reflexivity.
+Qed.
+
+Theorem run_inverse_is_reverse fa c thr g ns st ns' sr :
+  (forall n, order_at fa n) -> r_remove_empty c = false -> iri_nodes (r_tau c) g ->
+  run_shapes fa (rwith_inverse true c) thr g = inl (ns, st) ->
+  run_shapes fa (rwith_inverse false c) thr (reverse_nonliteral (r_tau c) g) = inl (ns', sr) ->
+  ns' = ns /\ Forall2 (inverse_is_reverse (r_tau c)) st sr.
+Proof.
+  intros Hord Hre Hg Ht Hr.
+  apply run_shapes_decompose in Ht, Hr.
+  destruct Ht as (I & P & C & ID & Nt & Tt & Pt & St). destruct Hr as (I' & P' & C' & ID' & Nr & Tr & Pr & Sr).
+  change (full_ns (rwith_inverse true c)) with (full_ns c) in Nt.
+  change (full_ns (rwith_inverse false c)) with (full_ns c) in Nr.
+  assert (ns' = ns) by congruence. subst ns'. split; [reflexivity|].
+  cbn [rwith_inverse r_tau r_cap] in Tt, Tr.
+  change (mode_of (rwith_inverse true c)) with (mode_of c) in Tt.
+  change (mode_of (rwith_inverse false c)) with (mode_of c) in Tr.
+  rewrite track_reverse in Tr. assert (I' = I) by congruence. subst I'.
+  pose proof (proj1 (track_insts_ok _ _ _ _ _ Tt)) as Hn.
+  change (pcfg_of (rwith_inverse true c)) with (set_inverse (pcfg_of c) true) in Pt.
+  change (pcfg_of (rwith_inverse false c)) with (set_inverse (pcfg_of c) false) in Pr.
+  rewrite profile_result in Pt, Pr. cbn [set_inverse p_tau p_inverse p_remove_empty pcfg_of] in Pt, Pr.
+  rewrite Hre in Pt, Pr.
+  destruct (annotate_all (r_tau c) true g (adapt I)) as [ID0|] eqn:HA; [|discriminate Pt].
+  destruct (annotate_all (r_tau c) false (reverse_nonliteral (r_tau c) g) (adapt I)) as [ID0'|] eqn:HA'; [|discriminate Pr].
+  destruct (raw_profile (set_inverse (pcfg_of c) true) I ID0) as [P1 C1] eqn:HR.
+  destruct (raw_profile (set_inverse (pcfg_of c) false) I ID0') as [P1' C1'] eqn:HR'.
+  injection Pt as <- <- <-. injection Pr as <- <- <-.
+  destruct (raw_profile_inverse_is_reverse (pcfg_of c) I g ID0 P1 C1 ID0' P1' C1' Hn Hg HA HR HA' HR') as (EK & EC & _).
+  subst C1'.
+  pose proof (raw_profile_inverse_is_reverse_eq (pcfg_of c) I g ID0 P1 C1 ID0' P1' C1 Hn Hg HA HR HA' HR') as EQ.
+  destruct (profile_counts_char (set_inverse (pcfg_of c) true) I g ID0 P1 C1 Hn HA HR) as (_ & _ & NP & _).
+  pose proof (Forall2_dicts (fun e e' => dfilter (not_tau (r_tau c)) (c_inverse e) = dfilter (not_tau (r_tau c)) (c_direct e'))
+                P1 P1' NP EK (fun k v w Hv Hw => EQ k v w Hv Hw)) as FP.
+  unfold shex in St, Sr. cbn [scfg_of x_remove_empty rwith_inverse r_remove_empty] in St, Sr. rewrite Hre in St, Sr.
+  change (scfg_of (rwith_inverse true c) ns) with (with_inverse true (scfg_of c ns)) in St.
+  change (scfg_of (rwith_inverse false c) ns) with (with_inverse false (scfg_of c ns)) in Sr.
+  destruct (map_err (shex_class fa (with_inverse true (scfg_of c ns)) thr C1) P1) as [st0|] eqn:Mt; [|discriminate St].
+  destruct (map_err (shex_class fa (with_inverse false (scfg_of c ns)) thr C1) P1') as [sr0|] eqn:Mr; [|discriminate Sr].
+  injection St as <-. injection Sr as <-.
+  apply map_err_Forall2 in Mt, Mr.
+  clear - Hord FP Mt Mr. revert st0 sr0 Mt Mr.
+  induction FP as [|[cls e] [cls' e'] P1 P1' [Ec Ed] _ IH]; intros st0 sr0 Mt Mr.
+  - inversion Mt; subst. inversion Mr; subst. constructor.
+  - inversion Mt as [|? sh_t ? st1 Ht Mt']; subst. inversion Mr as [|? sh_r ? sr1 Hr Mr']; subst.
+    cbn [fst snd] in Ec, Ed. subst cls'. constructor; [|apply IH; assumption].
+    apply (class_inverse_is_reverse fa (scfg_of c ns) thr C1 cls e e' sh_t sh_r (Hord _) Ed Ht Hr).
+Qed.
